@@ -84,6 +84,9 @@ def run(rep, repo, tier):
             continue
         cfg = '[%s / -na %d]' % (cls, na)
         w = wf.ci.where
+        # the ranks read for a tie group reach the model: entry k of the tokenised ranks goes with entry k of the tokenised ids
+        from .c10 import check_token_use
+        check_token_use(rep, R, cfg, rule='C09.R7')
         for p in wf.problems:
             rep.fail('C09.R2', w, 'the file is a sequence of newline-terminated lines %s' % cfg, got=p, construct='line structure: ' + p[:80])
         # ---- header ----
